@@ -40,7 +40,7 @@ def describe(tier):
         "bind-to-foreign-object, bind-to-null, write-through-ref, write-through-original, allocate-until-growth}; heap-graph model; every transition "
         "checks: null <=> None and raw words -2^63/-1, alias => same offset + writes visible both ways, value/foreign => new extent allocated during the "
         "transition, independent afterwards; every non-null slot resolves to a live traced allocation of its buffer with the recorded member type.",
-        bounds=dict(holders=sorted(HOLDERS), depth="4 (3 for two-slot holders)" if tier == "quick" else "6 (5 for two-slot holders)", max_holders=2, sharding="one BFS per (holder, first event); states deduplicated within a shard"),
+        bounds=dict(holders=sorted(HOLDERS), depth="4 (3 for two-slot holders)" if tier == "quick" else "5 (4 for two-slot holders)", max_holders=2, sharding="one BFS per (holder, first event); states deduplicated within a shard"),
         assumptions=["object identity in the model = (buffer, offset) of a live traced allocation"],
         must_fire=["bind-existing", "bind-value", "bind-foreign", "bind-null", "write-ref", "write-orig", "grow", "construct"],
     )
@@ -363,7 +363,7 @@ def step_and_check(w, ev, n, res):
 def run_shard(shard, tier, seed):
     hname, first = shard
     res = common.ShardResult()
-    depth = 4 if tier == "quick" else 6
+    depth = 4 if tier == "quick" else 5
     if len(HOLDERS[hname][1]) > 1:
         depth -= 1
     feats = dict(holder=hname)
